@@ -2,7 +2,7 @@
    Only statements, closed by `exact`, with Print Assumptions beneath each.
    The model follows /repo after the repairs 005ce23 / 79f3366 / 3d2189e (see notes/C17.md). *)
 From Coq Require Import NArith List Bool Arith.
-From SV.Stream Require Import Skip SkipProofs Json1 SkipValid Dec Spec Enc Witness DecProofs1 DecProofs2 DecProofs EncProofs.
+From SV.Stream Require Import Skip SkipProofs Json1 SkipValid Dec Spec Enc Witness DecProofs1 DecProofs2 DecProofs Valid EncProofs.
 Import ListNotations.
 Open Scope N_scope.
 
@@ -24,6 +24,38 @@ Theorem C17_stream_chunk_independent_partial : forall avx2 pc r vs t,
   run avx2 pc r = stream_values (rd_bytes r) (rfin r) /\ run avx2 pc r = (vs, t).
 Proof. exact stream_chunk_independent_partial. Qed.
 Print Assumptions C17_stream_chunk_independent_partial.
+
+(* ---- the same at the level of the grammar: NO guard to compute.  For every stream of top-level values that are valid
+   for the reference scanner (objects, arrays, strings, literals, numbers; separated by white space or nothing), followed
+   by white space, by a number that ends the stream, by a byte that cannot start a value or by a truncated object /
+   array / string / literal - see Valid.valid_stream, six constructors - and EVERY reader oracle delivering it.
+   Nothing is assumed about the fast skipper, decodeNumber or the inner decoder: Valid.v proves what they do on valid
+   values (guard contains grammar: valid_stream_good).  The one side condition (constructor vs_number): a number must not
+   be glued to further number bytes that run up to the end of the data of a FAILING reader (refuted below). *)
+Theorem C17_stream_chunk_independent : forall avx2 pc r,
+  (1 <= pc)%nat -> wf_reader r = true -> valid_stream (rfin r) (rd_bytes r) ->
+  run avx2 pc r = stream_values (rd_bytes r) (rfin r).
+Proof. exact stream_chunk_independent_valid. Qed.
+Print Assumptions C17_stream_chunk_independent.
+
+Theorem C17_grammar_in_guard : forall avx2 fin s,
+  valid_stream fin s -> forall fuel, (length s < fuel)%nat -> exists vs t, good_values avx2 fin fuel s = Some (vs, t).
+Proof. exact valid_stream_good. Qed.
+Print Assumptions C17_grammar_in_guard.
+
+Example C17_valid_stream_satisfiable : valid_stream EOF ex_stream.
+Proof. exact ex_stream_valid. Qed.
+
+(* ---- the framing routine and the inner decoder are PARAMETERS of the result: for any `skip` with the framing property
+   recorded in good_stream and ANY function `inner` of the framed bytes (Decoder.Decode into interface{}, into a struct,
+   with any options: whatever is decoded, it is decoded from the same bytes for every chunking), the model yields the
+   listed results and terminal condition for every reader oracle *)
+Theorem C17_parametric_in_inner_decoder : forall (skip : bytes -> skipres) (inner : bytes -> option bytes) fin s vs t,
+  good_stream skip inner fin s vs t ->
+  forall st fuel, Inv st -> rfin (rd st) = fin -> drop_ws (pending st) = drop_ws s -> (length vs < fuel)%nat ->
+  exists st', decode_all skip inner fuel st = (vs, t, st').
+Proof. exact decode_all_good. Qed.
+Print Assumptions C17_parametric_in_inner_decoder.
 
 Theorem C17_stream_same_bytes_same_result : forall avx2 pc1 pc2 r1 r2 vs t,
   (1 <= pc1)%nat -> (1 <= pc2)%nat -> wf_reader r1 = true -> wf_reader r2 = true ->
@@ -210,6 +242,37 @@ Theorem C17_enc_indent_path : forall body ind newline w res w1,
   (exists pre suf, p = pre ++ suf /\ wgot w1 = wgot w ++ pre).
 Proof. exact enc_indent_path. Qed.
 Print Assumptions C17_enc_indent_path.
+
+(* SetIndent path at full strength: the outcome is decided by the writer's answer to the single Write *)
+Theorem C17_enc_indent_cases : forall body ind newline w,
+  let p := indent_payload ind newline in
+  p <> [] ->
+  match wresp w with
+  | [] => Encode (Some body) (Some ind) newline w = (ENil, {| wresp := []; wgot := wgot w ++ p |})
+  | (k, Some e) :: tl =>
+    Encode (Some body) (Some ind) newline w = (EErr e, {| wresp := tl; wgot := wgot w ++ firstn (Nat.min k (length p)) p |})
+  | (k, None) :: tl =>
+    if (length p <=? k)%nat
+    then Encode (Some body) (Some ind) newline w = (ENil, {| wresp := tl; wgot := wgot w ++ p |})
+    else Encode (Some body) (Some ind) newline w = (EErr ErrShortWrite, {| wresp := tl; wgot := wgot w ++ firstn k p |})
+  end.
+Proof. exact enc_indent_cases. Qed.
+Print Assumptions C17_enc_indent_cases.
+
+(* ---- More() and Buffered(), as documented for encoding/json on top-level streams (tied in the harness to
+   encoding/json.Decoder.More in lockstep and to "Buffered() ++ undelivered = stream[InputOffset():]") *)
+Theorem C17_more_spec : forall st r st',
+  Inv st -> More st = (r, st') ->
+  match drop_ws (pending st) with
+  | [] => r = MFalse /\ err st' = Some (DIo (rfin (rd st)))
+  | c :: R' => r = (if (N.eqb c 93 || N.eqb c 125)%bool then MFalse else MTrue) /\ Inv st' /\ pending st' = c :: R'
+  end.
+Proof. exact more_spec. Qed.
+Print Assumptions C17_more_spec.
+
+Theorem C17_buffered_spec : forall st, BInv st -> exists b, Buffered st = Some b /\ pending st = b ++ rd_bytes (rd st).
+Proof. exact buffered_spec. Qed.
+Print Assumptions C17_buffered_spec.
 
 (* ---- the former refutation witnesses now agree with the specification (regression cases, also in corpus/C17) *)
 Theorem C17_former_witnesses_fixed : forall avx2,
